@@ -93,6 +93,7 @@ pub struct SincFixedIn<T> {
     nbr_channels: usize,
     chunk_size: usize,
     max_chunk_size: usize,
+    history_len: usize,
     last_index: f64,
     resample_ratio: f64,
     resample_ratio_original: f64,
@@ -301,7 +302,13 @@ where
         nbr_channels: usize,
     ) -> Result<Self, ResamplerConstructionError> {
         validate_ratios(resample_ratio, max_resample_ratio_relative)?;
-        let buffer = vec![vec![T::zero(); chunk_size + 2 * interpolator.len()]; nbr_channels];
+        // Frames kept before the current chunk. A chunk processed at the lowest ratio stops up to
+        // one step of max_relative / ratio frames before its end, and a following chunk at a
+        // higher ratio continues from there.
+        let history_len = 2 * interpolator.len()
+            + (max_resample_ratio_relative / resample_ratio).ceil() as usize
+            + 1;
+        let buffer = vec![vec![T::zero(); chunk_size + history_len]; nbr_channels];
 
         let channel_mask = vec![true; nbr_channels];
 
@@ -309,6 +316,7 @@ where
             nbr_channels,
             chunk_size,
             max_chunk_size: chunk_size,
+            history_len,
             last_index: -((interpolator.len() / 2) as f64),
             resample_ratio,
             resample_ratio_original: resample_ratio,
@@ -362,6 +370,7 @@ where
         )?;
 
         let sinc_len = self.interpolator.len();
+        let history_len = self.history_len;
         let oversampling_factor = self.interpolator.nbr_sincs();
         let mut t_ratio = 1.0 / self.resample_ratio;
         let t_ratio_end = 1.0 / self.target_ratio;
@@ -378,7 +387,7 @@ where
         for (chan, active) in self.channel_mask.iter().enumerate() {
             if *active {
                 debug_assert!(needed_len <= wave_out[chan].as_mut().len());
-                self.buffer[chan][2 * sinc_len..2 * sinc_len + self.chunk_size]
+                self.buffer[chan][history_len..history_len + self.chunk_size]
                     .copy_from_slice(&wave_in[chan].as_ref()[..self.chunk_size]);
             }
         }
@@ -404,7 +413,7 @@ where
                             for (n, p) in nearest.iter().zip(points.iter_mut()) {
                                 *p = self.interpolator.get_sinc_interpolated(
                                     buf,
-                                    (n.0 + 2 * sinc_len as isize) as usize,
+                                    (n.0 + history_len as isize) as usize,
                                     n.1 as usize,
                                 );
                             }
@@ -430,7 +439,7 @@ where
                             for (n, p) in nearest.iter().zip(points.iter_mut()) {
                                 *p = self.interpolator.get_sinc_interpolated(
                                     buf,
-                                    (n.0 + 2 * sinc_len as isize) as usize,
+                                    (n.0 + history_len as isize) as usize,
                                     n.1 as usize,
                                 );
                             }
@@ -456,7 +465,7 @@ where
                             for (n, p) in nearest.iter().zip(points.iter_mut()) {
                                 *p = self.interpolator.get_sinc_interpolated(
                                     buf,
-                                    (n.0 + 2 * sinc_len as isize) as usize,
+                                    (n.0 + history_len as isize) as usize,
                                     n.1 as usize,
                                 );
                             }
@@ -478,7 +487,7 @@ where
                             let buf = &self.buffer[chan];
                             point = self.interpolator.get_sinc_interpolated(
                                 buf,
-                                (nearest.0 + 2 * sinc_len as isize) as usize,
+                                (nearest.0 + history_len as isize) as usize,
                                 nearest.1 as usize,
                             );
                             wave_out[chan].as_mut()[n] = point;
@@ -492,7 +501,7 @@ where
         // Move the end of this chunk to the start of the buffer, as history for the next one.
         // This must use the chunk size of this call, it may be changed before the next.
         for buf in self.buffer.iter_mut() {
-            buf.copy_within(self.chunk_size..self.chunk_size + 2 * sinc_len, 0);
+            buf.copy_within(self.chunk_size..self.chunk_size + history_len, 0);
         }
 
         // Store last index for next iteration.
